@@ -18,9 +18,10 @@ EXTENDS Integers, Sequences, FiniteSets, TLC, Json
 
 Trace == ndJsonDeserialize("trace.ndjson")
 
-VARIABLES l, roundId, period, lastM, alive, released, diedAt, viol, valid, discarded
+VARIABLES l, roundId, period, lastM, alive, released, diedAt, viol, valid, discarded,
+          void    \* the live holder's lock was removed in an overloaded window: the rest of the round says nothing about the holder
 
-vars == <<l, roundId, period, lastM, alive, released, diedAt, viol, valid, discarded>>
+vars == <<l, roundId, period, lastM, alive, released, diedAt, viol, valid, discarded, void>>
 Ev == Trace[l]
 Consume == l <= Len(Trace) /\ l' = l + 1
 Flag(s) == viol' = viol \cup s
@@ -30,45 +31,58 @@ Max3(a, b, c) == IF a >= b /\ a >= c THEN a ELSE IF b >= c THEN b ELSE c
 Slack == 60000      \* µs: millisecond truncation of the age test, time stamp granularity, scheduling of the poll
 
 TraceInit == l = 1 /\ roundId = 0 /\ period = 50000 /\ lastM = 0 /\ alive = FALSE /\ released = FALSE /\ diedAt = -1
-             /\ viol = {} /\ valid = 0 /\ discarded = 0
+             /\ viol = {} /\ valid = 0 /\ discarded = 0 /\ void = FALSE
 
 Start == /\ Consume /\ Ev.op = "Start" /\ (roundId # 0 => Verdict)
          /\ roundId' = Ev.id /\ period' = Ev.period /\ lastM' = 0 /\ alive' = FALSE /\ released' = FALSE /\ diedAt' = -1
-         /\ viol' = {} /\ valid' = 0 /\ discarded' = 0
-End == Consume /\ Ev.op = "End" /\ (roundId # 0 => Verdict) /\ UNCHANGED <<roundId, period, lastM, alive, released, diedAt, viol, valid, discarded>>
+         /\ viol' = {} /\ valid' = 0 /\ discarded' = 0 /\ void' = FALSE
+End == Consume /\ Ev.op = "End" /\ (roundId # 0 => Verdict) /\ UNCHANGED <<roundId, period, lastM, alive, released, diedAt, viol, valid, discarded, void>>
 
 Sign == /\ Consume /\ Ev.op = "Sign"
         /\ lastM' = (IF Ev.mtime > lastM THEN Ev.mtime ELSE lastM)
-        /\ UNCHANGED <<roundId, period, alive, released, diedAt, viol, valid, discarded>>
-Ctl == Consume /\ Ev.op = "Ctl" /\ UNCHANGED <<roundId, period, lastM, alive, released, diedAt, viol, valid, discarded>>
-Acquired == Consume /\ Ev.op = "Acquired" /\ alive' = TRUE /\ UNCHANGED <<roundId, period, lastM, released, diedAt, viol, valid, discarded>>
-Died == Consume /\ Ev.op = "Died" /\ alive' = FALSE /\ diedAt' = Ev.t /\ UNCHANGED <<roundId, period, lastM, released, viol, valid, discarded>>
-Released == Consume /\ Ev.op = "Released" /\ alive' = FALSE /\ released' = TRUE /\ UNCHANGED <<roundId, period, lastM, diedAt, viol, valid, discarded>>
+        /\ UNCHANGED <<roundId, period, alive, released, diedAt, viol, valid, discarded, void>>
+Ctl == Consume /\ Ev.op = "Ctl" /\ UNCHANGED <<roundId, period, lastM, alive, released, diedAt, viol, valid, discarded, void>>
+Acquired == Consume /\ Ev.op = "Acquired" /\ alive' = TRUE /\ UNCHANGED <<roundId, period, lastM, released, diedAt, viol, valid, discarded, void>>
+Died == Consume /\ Ev.op = "Died" /\ alive' = FALSE /\ diedAt' = Ev.t /\ UNCHANGED <<roundId, period, lastM, released, viol, valid, discarded, void>>
+Released == Consume /\ Ev.op = "Released" /\ alive' = FALSE /\ released' = TRUE /\ UNCHANGED <<roundId, period, lastM, diedAt, viol, valid, discarded, void>>
 
 \* a poll: IsStale / ReleaseIfStale / TryLock by an observer
 Poll ==
     /\ Consume /\ Ev.op = "Poll"
     /\ LET silent == Ev.end - lastM > 2 * period            \* necessary for any "stale" answer
            ctlOK == Ev.ctlGap <= period + period \div 2      \* the control heartbeat was healthy over the window
-       IN IF released THEN UNCHANGED <<viol, valid, discarded>>      \* the holder is releasing: anything may be seen
+       IN IF released \/ void THEN UNCHANGED <<viol, valid, discarded>>      \* the holder is releasing / lost its lock: anything may be seen
           ELSE IF Ev.judged /\ ~silent
                THEN Flag({"stale-reported-without-silence"}) /\ UNCHANGED <<valid, discarded>>
           ELSE IF Ev.judged /\ alive
-               THEN \* really silent although the holder lives: its heartbeat was late - the library's fault only
-                    \* if the control heartbeat, doing the same work, kept its period
-                    IF ctlOK THEN Flag({"live-lock-heartbeat-late"}) /\ UNCHANGED <<valid, discarded>>
-                    ELSE discarded' = discarded + 1 /\ UNCHANGED <<viol, valid>>
+               THEN \* really silent although the holder lives: its heartbeat was late.  One late beat is what a stalled
+                    \* host produces; whether the library keeps its period is judged over the whole round (Stats)
+                    \* a control heartbeat that kept its period meanwhile makes the round a suspect (aggregated over rounds by the checker)
+                    /\ discarded' = discarded + 1 /\ UNCHANGED valid
+                    /\ (IF ctlOK /\ ~void THEN Flag({"suspect-live-lock-heartbeat-late"}) ELSE UNCHANGED viol)
           ELSE IF ~Ev.judged /\ ~alive /\ diedAt >= 0 /\ Ev.kind = "IsStale"
                   /\ Ev.start > Max3(lastM, diedAt, Ev.lastSign) + 2 * period + Slack   \* a write already under way at the death still counts
                THEN Flag({"dead-lock-not-reported-stale"}) /\ UNCHANGED <<valid, discarded>>
           ELSE valid' = valid + 1 /\ UNCHANGED <<viol, discarded>>
+    \* a live holder's lock that was actually released or taken over no longer is the holder's
+    /\ void' = (void \/ (Ev.judged /\ alive /\ ~released /\ Ev.kind \in {"ReleaseIfStale", "TryLock"} /\ Ev.end - lastM > 2 * period))
     /\ UNCHANGED <<roundId, period, lastM, alive, released, diedAt>>
+
+\* beats seen over the time the holder lived (libGap / ctlGap carry the counts): the library must keep up with the
+\* control heartbeat that did the same work at the documented period (at least 2/3 of its beats, when the control
+\* itself made at least 2/3 of the beats the period asks for - otherwise the host was overloaded)
+Stats == /\ Consume /\ Ev.op = "Stats"
+         /\ LET want == (Ev.end - Ev.start) \div period IN
+            IF want >= 3 /\ 3 * Ev.ctlGap >= 2 * want /\ 3 * Ev.libGap < 2 * Ev.ctlGap /\ Ev.ctlGap >= Ev.libGap + 2
+            THEN Flag({"live-lock-heartbeat-late"}) ELSE UNCHANGED viol
+         /\ UNCHANGED <<roundId, period, lastM, alive, released, diedAt, valid, discarded, void>>
 
 \* after the death: reported stale, released by ReleaseIfStale, acquired by a fresh contender
 Recover == /\ Consume /\ Ev.op = "Recover"
-           /\ Flag((IF ~Ev.judged THEN {"dead-lock-not-reported-stale"} ELSE {}) \cup
-                   (IF Ev.result # "" THEN {"dead-lock-not-recoverable"} ELSE {}))
-           /\ UNCHANGED <<roundId, period, lastM, alive, released, diedAt, valid, discarded>>
+           /\ IF void THEN UNCHANGED viol
+              ELSE Flag((IF ~Ev.judged THEN {"dead-lock-not-reported-stale"} ELSE {}) \cup
+                        (IF Ev.result # "" THEN {"dead-lock-not-recoverable"} ELSE {}))
+           /\ UNCHANGED <<roundId, period, lastM, alive, released, diedAt, valid, discarded, void>>
 
 \* model-time death points
 DeathPoint ==
@@ -80,9 +94,9 @@ DeathPoint ==
                \cup (IF Ev.dirExists /\ ~Ev.staleAfter THEN {"dead-lock-not-reported-stale"} ELSE {})
                \cup (IF Ev.releaseKind # "" \/ Ev.acquireKind # "" THEN {"dead-lock-not-recoverable"} ELSE {})
     /\ valid' = 1 /\ discarded' = 0
-    /\ UNCHANGED <<period, lastM, alive, released, diedAt>>
+    /\ UNCHANGED <<period, lastM, alive, released, diedAt, void>>
 
-TraceNext == Start \/ End \/ Sign \/ Ctl \/ Acquired \/ Died \/ Released \/ Poll \/ Recover \/ DeathPoint
+TraceNext == Stats \/ Start \/ End \/ Sign \/ Ctl \/ Acquired \/ Died \/ Released \/ Poll \/ Recover \/ DeathPoint
 TraceSpec == TraceInit /\ [][TraceNext]_vars
 TraceAccepted == LET n == TLCGet("stats").diameter - 1 IN PrintT(<<"TRACE_MATCHED", n>>) /\ n = Len(Trace)
 =============================================================================
